@@ -48,6 +48,7 @@ func checkC03(c *core.Ctx) error {
 	c.Rule("C03.R2", "merge step of every joint iterator: after Next() the position is the minimum live index, s_k is present exactly for the operands live at it, exactly those sub-iterators advanced, stale elements cleared; Ok() true iff some operand is live", 60)
 	c.Rule("C03.R3", "sparse element-wise kernels equal op(a,b) with absent = 0 in every presence case, including absent and stale receiver entries; support-restricted iteration only where op(0,0)=0", 600)
 	c.Rule("C03.R4", "Set/SET/SetIdentity of sparse containers iterate over all positions or over a joint domain that includes the source, never over the receiver's current support alone", 27)
+	checkNullScalar(c)
 	pkg := c.Root
 	info := pkg.TypesInfo
 
